@@ -43,7 +43,9 @@ TRUSTED_BASE = [
     "for the repaired function only: completeness of the pair-sum shortcut on CONNECTED graphs (Van den Nest-Dehaene-De Moor, PRA 70, 034302) is a "
     "stated hypothesis of decides_lc_equivalence_repaired_partial (shortcut_complete_on_connected_statement), not a theorem; it is tested "
     "(every false no of the implementation is a violation of the direct oracle; handoff/repairs/d14/validate.py: exhaustive for connected n<=6)",
-    "np.linalg.inv on the unit-triangular 0/1 matrices that occur is exact (the model inverts over GF(2) and checks the product)",
+    "np.linalg.inv on the unit-triangular 0/1 matrices that occur is exact in floating point (the model inverts over GF(2); that the matrices are "
+    "upper unitriangular, that the exact inverse exists and is two-sided, and that no internal assertion of is_lc_equivalent can fire is proved: "
+    "is_lc_equivalent_component_total, is_lc_equivalent_total)",
     "_phase_correction is modelled at specification level (unique set of Z gates fixing the signs); canonical_form itself belongs to C05",
     "tensor-product lifting of the tableau semantics (C07) used to interpret the returned gates",
     "harness, line protocol, driver BFS orbit enumeration over the verified localComp",
